@@ -323,6 +323,31 @@ def _semantic(ck, ctx):
               "Output.group_by_type_result")
 
 
+    # ---- O-run: run() hands the formatter's result through unchanged - whatever the flat result is (also when it is empty)
+    from ..objabs import run_tail, format_output, ShapeMismatch
+    no_tables = [copy.deepcopy(ents[k]) for k in kinds if k != "table_name"]
+    flats = {"empty": [], "only a property": [copy.deepcopy(ents["value"])], "every kind but tables": no_tables,
+             "comments only": [copy.deepcopy(comments)], "a sequence and comments": [copy.deepcopy(ents["sequence_name"]), copy.deepcopy(comments)]}
+    for name, flat in flats.items():
+        for grouped in (False, True):
+            for mode in ("sql", "hql"):
+                try:
+                    want = format_output(ctx, copy.deepcopy(flat), mode, grouped)
+                    got, dumps = run_tail(ctx, copy.deepcopy(flat), group_by_type=grouped, output_mode=mode)
+                    ok = _eq(got, want) and type(got) is type(want) and not dumps
+                    detail = "" if ok else f"run() returns {got!r}, the formatter {want!r}"[:400]
+                    gj, _d = run_tail(ctx, copy.deepcopy(flat), group_by_type=grouped, output_mode=mode, json_dump=True)
+                    if ok and not (isinstance(gj, tuple) and gj and gj[0] == "json.dumps" and _eq(gj[1], want)):
+                        ok, detail = False, f"json_dump=True does not return json.dumps of the same object: {gj!r}"[:300]
+                except PyRaise as pr:
+                    ok, detail = False, f"raises {type(pr.exc).__name__}: {pr.exc}"
+                except (LexUnknown, NonUniform, ShapeMismatch) as e:
+                    raise AnalysisError(f"Parser.run outside the interpreted subset ({name}): {e}")
+                ck.ob("O-run", f"run(group_by_type={grouped}, output_mode={mode!r}) on: {name}", ok,
+                      "run() returns exactly what the formatter returns for the flat result (the grouped dict with its six documented buckets "
+                      "when group_by_type is set - also for an empty result)" + ("" if ok else "; " + detail), "Parser.run (evaluated abstractly)")
+
+
 def _eq(a, b):
     from ..pyabs import deep_eq, NonUniform
     try:
